@@ -32,9 +32,11 @@ def make(kind, p, rng):
     ips = IPS()
     with warnings.catch_warnings():
         warnings.simplefilter("ignore")
+        # sizes and counts as the caller holds them (Python ints, or NumPy integers of any width read from a table)
+        T = (lambda v: getattr(np, p["size_as"])(v)) if p.get("size_as") else (lambda v: v)
         if kind == "vk":
-            return ips.PhaseScreenVonKarman(p["nx"], p["ps"], p["r0"], p["L0"], random_seed=rng, n_columns=p["ncol"])
-        return ips.PhaseScreenKolmogorov(p["nx"], p["ps"], p["r0"], p["L0"], random_seed=rng, stencil_length_factor=p["factor"])
+            return ips.PhaseScreenVonKarman(T(p["nx"]), p["ps"], p["r0"], p["L0"], random_seed=rng, n_columns=T(p["ncol"]))
+        return ips.PhaseScreenKolmogorov(T(p["nx"]), p["ps"], p["r0"], p["L0"], random_seed=rng, stencil_length_factor=T(p["factor"]))
 
 
 def sibling_first(ctx, kind, p):
@@ -97,7 +99,8 @@ def vk_cases(draw, nmax=28):
         ps = draw(st.sampled_from([1, 2]))                       # a pixel scale given as an integer is a valid pixel scale
     return {"kind": "vk", "nx": nx, "ncol": draw(st.integers(1, min(4, nx))), "ps": ps, "r0": draw(st.one_of(gen.logfloat(0.05, 1.0), gen.logfloat(1e-3, 100.0))),
             "L0": ps * draw(RATIO), "seed": draw(st.integers(0, 2**31)), "c": draw(st.floats(-50, 50)),
-            "sib": draw(st.sampled_from([None, None, "r0,L0", "r0", "L0", "ps,r0,L0"])), "sibk": draw(st.sampled_from([2.0, 0.5, 4.0, 1.25]))}
+            "sib": draw(st.sampled_from([None, None, "r0,L0", "r0", "L0", "ps,r0,L0"])), "sibk": draw(st.sampled_from([2.0, 0.5, 4.0, 1.25])),
+            "size_as": draw(st.sampled_from([None, None, None, "int64", "uint8", "uint16", "int8", "uint32"]))}
 
 
 @st.composite
@@ -108,7 +111,8 @@ def fried_cases(draw, nmax=20):
         ps = draw(st.sampled_from([1, 2]))
     return {"kind": "fried", "nx": nx, "factor": draw(st.integers(1, 4)), "ps": ps, "r0": draw(st.one_of(gen.logfloat(0.05, 1.0), gen.logfloat(1e-3, 100.0))),
             "L0": ps * draw(RATIO), "seed": draw(st.integers(0, 2**31)), "c": draw(st.floats(-50, 50)),
-            "sib": draw(st.sampled_from([None, None, "r0,L0", "r0", "L0", "ps,r0,L0"])), "sibk": draw(st.sampled_from([2.0, 0.5, 4.0, 1.25]))}
+            "sib": draw(st.sampled_from([None, None, "r0,L0", "r0", "L0", "ps,r0,L0"])), "sibk": draw(st.sampled_from([2.0, 0.5, 4.0, 1.25])),
+            "size_as": draw(st.sampled_from([None, None, None, "int64", "uint8", "uint16", "int8", "uint32"]))}
 
 
 def body(ctx, p):
